@@ -89,20 +89,24 @@ def s_part(ck, tier, rng):
         for _ in range(12):
             cfg = slevel.gen_config(rng, depth=rng.choice([0, 1, 2]))
             configs.append(("random", cfg, slevel.gen_devs(rng, cfg, (0, 1, 1, 2))))
+    # the same with other initial times: the whole run below simulation time 0, and far above it
+    configs = [c + (0,) for c in configs] + [("flat-negative-start",) + configs[0][1:] + (-5_000_000_000,),
+                                            ("nested-negative-start",) + configs[1][1:] + (-5_000_000_000,),
+                                            ("flat-late-start",) + configs[0][1:] + (7_000_000_000,)]
     t_end = 1_300_000_003
     cases, terms = [], []
-    for name, cfg, devs in configs:
-        base = slevel.run_internal(cfg, devs, (1, 1), 0, [], t_end)
+    for name, cfg, devs, initial in configs:
+        base = slevel.run_internal(cfg, devs, (1, 1), initial, [], t_end)
         nsteps = base["steps"] or 60
         for d in slevel.devices_of(cfg):
             stride = 1 if tier == "thorough" or nsteps < 120 else 2
             for k in range(1, nsteps, stride):
-                r = slevel.run_internal(cfg, devs, (1, 1), 0, [], t_end, inject=(k, d))
+                r = slevel.run_internal(cfg, devs, (1, 1), initial, [], t_end, inject=(k, d))
                 inj = r["inj"]
                 if not inj or not inj["started"] or inj["real"] >= t_end:
                     continue   # the scheduler had not begun its initial tick yet (outside the property), or the run is over
-                cases.append(dict(name=name, cfg=cfg, devs=devs, device=d, step=k, inj=inj, run=r))
-                sc = slevel.render_sim_case(cfg, devs, (1, 1), 0, [], t_end, r)
+                cases.append(dict(name=name, cfg=cfg, devs=devs, device=d, step=k, inj=inj, run=r, initial=initial))
+                sc = slevel.render_sim_case(cfg, devs, (1, 1), initial, [], t_end, r)
                 terms.append(T(sc, T(P(d), Zr(inj["real"]), Zr(inj["pos"])), L(Zr(x) for x in r["trace_rt"])))
     bad = run_shards(PID + "_s", sprops.HEADER, "inj_case", "check_inj", terms, shard_size=40)
     for i, c in enumerate(cases):
@@ -150,7 +154,7 @@ def main(tier, seed):
                 c = scases[i]
                 ck.report(REASONS[code] + ("-nested" if key[1] else ""),
                           f"interrupt of device c{c['device']} injected at loop step {c['step']} ({c['name']}): {REASONS[code]}",
-                          dict(kind="injection", cfg={str(k): v for k, v in c["cfg"].items()}, devs={str(k): v for k, v in c["devs"].items()},
+                          dict(kind="injection", initial=c.get("initial", 0), cfg={str(k): v for k, v in c["cfg"].items()}, devs={str(k): v for k, v in c["devs"].items()},
                                device=c["device"], step=c["step"], inj=c["inj"], error=c["run"]["error"], task_errors=c["run"]["errors"][:3],
                                updates=[(cc, t, rt) for (cc, t, _), rt in zip(c["run"]["trace"], c["run"]["trace_rt"])]))
     if not done:
@@ -170,7 +174,7 @@ def replay(rp):
         cfg = {int(k): dict(order=[(c, (k2 if k2 == "dev" else int(k2))) for c, k2 in v["order"]],
                             conns=[tuple(x) for x in v["conns"]]) for k, v in rp["cfg"].items()}
         devs = {int(k): tuple(v) for k, v in rp["devs"].items()}
-        r = slevel.run_internal(cfg, devs, (1, 1), 0, [], 1_300_000_003, inject=(rp["step"], rp["device"]))
+        r = slevel.run_internal(cfg, devs, (1, 1), rp.get("initial", 0), [], 1_300_000_003, inject=(rp["step"], rp["device"]))
         print("injection:", r["inj"], "error:", r["error"])
         ups = [(t, rt) for (cc, t, _), rt in zip(r["trace"], r["trace_rt"]) if cc == rp["device"]]
         print("updates of the device (sim time, real time):", ups)
